@@ -7,6 +7,7 @@ package envoyclient
 
 import (
 	"fmt"
+	"os"
 	"sort"
 	"sync"
 	"sync/atomic"
@@ -31,6 +32,9 @@ const (
 )
 
 var Types = []string{CDS, EDS, LDS, RDS}
+
+// Trace prints every delta response (debugging aid).
+var Trace = os.Getenv("XDSCONV_TRACE") != ""
 
 func Short(t string) string {
 	switch t {
@@ -442,6 +446,13 @@ func (c *Client) applyDelta(r *discovery.DeltaDiscoveryResponse) {
 	}
 	if len(r.RemovedResources) > 0 {
 		c.Stats["delta_responses_with_removals"]++
+	}
+	if Trace {
+		var ns []string
+		for _, res := range r.Resources {
+			ns = append(ns, res.Name)
+		}
+		fmt.Printf("TRACE delta-response client=%s type=%s resources=%v removed=%v\n", c.Name, Short(t), ns, r.RemovedResources)
 	}
 	ack := func() { c.delta.Request(&discovery.DeltaDiscoveryRequest{TypeUrl: t, ResponseNonce: r.Nonce}) }
 	if c.cutIfDue(ack) {
